@@ -1384,6 +1384,16 @@ impl<'t, 'c> Gen<'t, 'c> {
             }
             self.cur.collateral = Some(c);
             collateral.push(self.gen_utxo(200, None, true));
+            // a collateral query may be served by several UTxOs
+            if self.t.chance(1, 3) {
+                self.mark("collateral_of_several_utxos");
+                for k in 0..1 + self.t.pick(3) {
+                    let u = self.gen_utxo(201 + k, None, true);
+                    if !collateral.iter().any(|c: &GUtxo| c.txid == u.txid && c.index == u.index) {
+                        collateral.push(u);
+                    }
+                }
+            }
         }
 
         // mints / burns
